@@ -152,7 +152,12 @@ func buildArg(p *ssa.Parameter, model map[string]string, pkg *types.Package, pla
 		case u.Info()&types.IsBoolean != 0:
 			return model[name], model[name] == "true" || model[name] == "false"
 		case u.Info()&types.IsString != 0:
-			return `""`, true
+			for k, v := range model {
+				if strings.HasPrefix(k, name+"==") && v == "true" {
+					return fmt.Sprintf("%s(%q)", goTypeName(t, pkg, plan), strings.TrimPrefix(k, name+"==")), true
+				}
+			}
+			return fmt.Sprintf("%s(%q)", goTypeName(t, pkg, plan), "govc: some string that is no literal of the code"), true
 		}
 	case *types.Interface:
 		if hasMethod(u, "Read") {
